@@ -113,7 +113,7 @@ def generate(ctx):
             e1 = rng.randint(1, len(genome))
             wins = [(-1, -1), (1, -1), (-1, e1), (1, e1)]
         msa, recs = vcommon.build_msa(rng, ref_row, rows, refpos="first", style="plain")
-        annob = anno.render_genbank(genome, feats, rng) if suffix == "gb" else anno.render_gff(genome, feats)
+        annob = anno.render_genbank(genome, feats, rng) if suffix == "gb" else anno.render_gff(genome, feats, mix=rng)
         append = rng.random() < 0.5
         for (s, e) in wins:
             c = vcommon.variants_case(cid, msa, "REF", annob, suffix, {"kind": "variants", "nontrivial": (s, e) != (-1, -1), "group": (g, "var"),
@@ -250,7 +250,7 @@ def extra(ctx, obl, cases, obs):
             if not feats:
                 continue
             msa, _ = vcommon.build_msa(rng, ref_row, rows, refpos="first", style="plain")
-            annob = anno.render_genbank(genome, feats, rng) if suffix == "gb" else anno.render_gff(genome, feats)
+            annob = anno.render_genbank(genome, feats, rng) if suffix == "gb" else anno.render_gff(genome, feats, mix=rng)
             mp, ap = os.path.join(tmp, "m.fasta"), os.path.join(tmp, "a." + suffix)
             open(mp, "wb").write(msa)
             open(ap, "wb").write(annob)
